@@ -828,6 +828,40 @@ func c12Run(r *Run) {
 				if inner, ok := ast.Unparen(se.X).(*ast.SelectorExpr); ok && inner.Sel.Name == "parser" && fieldOf(inner.X) == fBase && se.Sel.Name != "Clone" {
 					r.bad(funcKey(pkg, fd)+"#base-parser-use:"+se.Sel.Name, c.Pos(), "a TempVM method uses the base VM's parser directly ("+se.Sel.Name+"): whatever it defines is registered in the base VM")
 				}
+				// a clone of the base VM's parser still belongs to the base VM until SetVM(receiver) rebinds it
+				if inner, ok := ast.Unparen(se.X).(*ast.SelectorExpr); ok && inner.Sel.Name == "parser" && fieldOf(inner.X) == fBase && se.Sel.Name == "Clone" {
+					var holder types.Object
+					ast.Inspect(fd.Body, func(m ast.Node) bool {
+						if as, ok := m.(*ast.AssignStmt); ok && len(as.Lhs) == 1 && len(as.Rhs) == 1 && ast.Unparen(as.Rhs[0]) == ast.Expr(c) {
+							if id, ok := as.Lhs[0].(*ast.Ident); ok {
+								holder = info.ObjectOf(id)
+							}
+						}
+						return true
+					})
+					rebound := false
+					if holder != nil && len(fd.Recv.List[0].Names) > 0 {
+						recvObj := info.Defs[fd.Recv.List[0].Names[0]]
+						ast.Inspect(fd.Body, func(m ast.Node) bool {
+							if y, ok := m.(*ast.CallExpr); ok && len(y.Args) == 1 {
+								if yse, ok := ast.Unparen(y.Fun).(*ast.SelectorExpr); ok && yse.Sel.Name == "SetVM" {
+									if xid, ok := ast.Unparen(yse.X).(*ast.Ident); ok && info.Uses[xid] == holder {
+										if aid, ok := ast.Unparen(y.Args[0]).(*ast.Ident); ok && info.Uses[aid] == recvObj {
+											rebound = true
+										}
+									}
+								}
+							}
+							return true
+						})
+					}
+					key := funcKey(pkg, fd) + "#base-parser-clone"
+					if rebound {
+						r.ok(key, c.Pos(), "the clone of the base VM's parser is rebound to this TempVM (SetVM(receiver))")
+					} else {
+						r.bad(key, c.Pos(), "a TempVM method parses with a clone of the base VM's parser that is never rebound with SetVM(receiver): a clone keeps the VM of its original, so what the parsed code declares registers in the base VM")
+					}
+				}
 				return true
 			})
 		}
